@@ -24,6 +24,21 @@ def main():
     time.tzset()
     if hasattr(mon, "init"):
         mon.init(tier)
+    # the system temp folder the tool would see (tempfile / $TMPDIR): per case either on the file system of the
+    # scratch area or on another one (a rename across the two fails with EXDEV); the unchanged tool never uses it
+    import shutil
+    import tempfile
+
+    sb = env.scratch_base()
+    tmp_same = os.path.join(sb, "vf-systmp-%d" % os.getpid())
+    tmp_other = None
+    for cand in ("/var/tmp", "/tmp", "/dev/shm"):
+        try:
+            if os.path.isdir(cand) and os.access(cand, os.W_OK) and os.stat(cand).st_dev != os.stat(sb).st_dev:
+                tmp_other = os.path.join(cand, "vf-systmp-%d" % os.getpid())
+                break
+        except OSError:
+            pass
     t0 = time.monotonic()
     if only_case is not None:
         todo = [only_case]
@@ -38,6 +53,13 @@ def main():
             zr = env.rng_for(seed_str, "zone")
             os.environ["TZ"] = zr.choice(["UTC", "UTC", "UTC", "Europe/Berlin", "America/St_Johns", "Asia/Kolkata", "Pacific/Chatham", "America/Caracas", "Australia/Lord_Howe", "America/New_York"])
             time.tzset()
+        tdir = tmp_other if tmp_other and env.rng_for(seed_str, "systmp").random() < 0.5 else tmp_same
+        shutil.rmtree(tdir, ignore_errors=True)
+        os.makedirs(tdir, exist_ok=True)
+        tempfile.tempdir = tdir
+        os.environ["TMPDIR"] = tdir
+        k = "systmp:other-filesystem" if tdir is tmp_other else "systmp:same-filesystem"
+        acc["counters"][k] = acc["counters"].get(k, 0) + 1
         drive.SPELL["rng"] = env.rng_for(seed_str, "spelling") if getattr(mon, "SPELLING", True) else None
         drive.VERBOSE["rng"] = env.rng_for(seed_str, "verbose") if getattr(mon, "VERBOSITY", True) else None
         try:
@@ -66,6 +88,10 @@ def main():
             except Exception:
                 pass
             cs.cleanup()
+    tempfile.tempdir = None
+    for t in (tmp_same, tmp_other):
+        if t:
+            shutil.rmtree(t, ignore_errors=True)
     if hasattr(mon, "finish"):
         mon.finish(acc)
     acc["counters"]["divergence_audit:readonly_commands_seen"] = drive.AUDIT["n"]
